@@ -960,8 +960,13 @@ inline void set(Frame& f, Value* v, Val x)
     f.regs[f.fi->idx[v]] = std::move(x);
 }
 
+// thread model (sbv_threads.inc, included last)
+bool        intercept_threads(const std::string& name, CallBase& cb, Frame& f, std::vector<Val>& args, Val& ret, bool& threw);
+bool        thread_finished();
+extern bool call_suspended;
 #include "sbv_calls.inc"
 #include "sbv_exec.inc"
+#include "sbv_threads.inc"
 } // namespace
 
 #include "sbv_main.inc"
